@@ -8,7 +8,10 @@ WS = b" \t\r\n"
 # APIs whose accept set is decided by the validating FSM + the Go trailing rule (compared with the model exactly)
 DOC_BOOL_MODEL = ["valid", "valids", "encv", "cfgstd", "marsh"]
 # whole-document decoders: accept = no syntax error.  Compared with the two-sided oracle (and reported against the model)
-DOC_DEC = ["uiface", "ubytes", "dec", "uraw", "unode", "ustruct", "uraws", "umap", "uifstd", "urawstd", "stdnode"]
+DOC_DEC = ["uiface", "ubytes", "dec", "uraw", "unode", "ucap", "ustruct", "uraws", "umap", "uifstd", "urawstd", "stdnode"]
+# the document embedded at a position the JIT decoder skips or captures (unknown field, RawMessage / Unmarshaler field,
+# mismatching field, map values, slice elements); value = class:rlx:std:depth of the WRAPPED document
+EMBED_APIS = ["eunk", "eraw", "enode", "emis", "emap", "eumap", "eslice"]
 # decoders that run with ValidateString (ConfigStd): string *contents* are checked more strictly than encoding/json.Valid
 # does (control characters, UTF-8), which the property does not speak about; only the structural side is compared
 STRICT_STRINGS = {"uifstd", "urawstd"}
@@ -82,12 +85,13 @@ class Finding:
                 "detail": self.detail}
 
 
-def compare_case(cid, kind, doc, impl, model, limit=4096):
-    """returns list of Finding (sev in 'violation' | 'tie' | known-finding id)."""
+def compare_case(cid, kind, doc, impl, model, limit=4096, backend=""):
+    """returns list of Finding (sev in 'violation' | 'tie' | known-finding id).
+    backend: suffix appended to the API name in reports ("" = default dispatch, "@sse" = SONIC_MODE=noavx2)."""
     out = []
 
     def add(sev, what, api, detail):
-        out.append(Finding(sev, what, cid, kind, doc, api, detail))
+        out.append(Finding(sev, what, cid, kind, doc, api + backend, detail))
 
     n = len(doc)
     std = impl["std"] == "1"
@@ -134,6 +138,19 @@ def compare_case(cid, kind, doc, impl, model, limit=4096):
     for api in DOC_DEC:
         # ok = accepted; syn = rejected as malformed; mis / val (type mismatch, number out of range) = no verdict on syntax
         doc_api(api, impl[api] == "ok", impl[api] in ("syn", "oth"))
+
+    # ---------------- oracle, the document embedded where the decoder skips / captures
+    for api in EMBED_APIS:
+        if api not in impl:
+            continue
+        f = impl[api].split(":")
+        if f[0] == "PANIC":
+            continue
+        cls, wrlx, wstd, wdepth = f[0], f[1] == "1", f[2] == "1", int(f[3])
+        if cls == "ok" and not wrlx:
+            add("violation", "structurally malformed value accepted at a skipped / captured position", api, impl[api])
+        if cls in ("syn", "oth") and wstd and wdepth < limit - 1:
+            add("violation", "value accepted by encoding/json.Valid rejected at a skipped / captured position (depth %d)" % wdepth, api, impl[api])
 
     # ---------------- oracle, prefix APIs
     def prefix_api(api, acc, okbit, raw_len=None, raw_crc=None):
@@ -211,7 +228,7 @@ def compare_case(cid, kind, doc, impl, model, limit=4096):
                 if not good:
                     add("tie", "NewRaw = skip_one + trailing blanks only: model says valid=%s vo=%s" % (m_valid, m_vo), api, impl[api])
             # RawMessage / Node capture = skip_one + CheckTrailings: same accept set as Valid
-            for api in ("uraw", "unode"):
+            for api in ("uraw", "unode", "ucap"):
                 acc = impl[api] == "ok"
                 if acc != (m_valid == "1"):
                     add("tie", "skip_one + CheckTrailings: model says %s" % m_valid, api, impl[api])
